@@ -238,7 +238,9 @@ pub fn c11(ctx: &mut Ctx) {
             let r = guard::catch(|| -> Result<(), String> {
                 let c = Compound::parse(v).map_err(|e| format!("{:?}", e))?;
                 let reference = super::common::iterator_reference(c, seq.len() + 3);
-                super::common::iterator_histories(l, "Compound", &|| Compound::parse(v).expect("parsed a moment ago"), &reference, hd, &show);
+                super::common::iterator_histories_obs(l, "Compound", &|| Compound::parse(v).expect("parsed a moment ago"), &reference, hd, &show, &|c| {
+                    let _ = crate::engine::run::fp_debug(c);
+                });
                 Ok(())
             });
             match r {
